@@ -194,8 +194,9 @@ func (n *Network) IsControlNode(nid int) bool {
 
 func (n *Network) Flush() (res bool, err error) {
 	res = true
-	// Flush back recursively
-	for _, node := range n.allNodes {
+	// Flush back recursively (control nodes included: their isActive flag is read by the first activation sweep
+	// of neurons linked from a control node)
+	for _, node := range n.allNodesMIMO {
 		node.Flushback()
 		err = node.FlushbackCheck()
 		if err != nil {
